@@ -66,7 +66,7 @@ _BZ = "vstr(concat(str_of(frag_base(t)), 'Z'))"
 # read with TIME_FORMAT; failing that, a fractional-seconds spelling is reduced to its seconds-resolution part)
 axiom('parsable', 'DEF-TIME[parsable]',
       "forall(lambda t: parsable(t) == (is_str(t) and (strp_ok(t, %r) or (%s and strp_ok(%s, %r)))), 'Val')" % (TF, _PM, _BZ, TF),
-      modname='saml2_tophat.time_util')
+      modname='saml2_tophat.time_util', reveal_in=['str_to_time', 'valid_date_time'])
 axiom('epoch', 'DEF-TIME[epoch]',
       "forall(lambda t: epoch(t) == ite(strp_ok(t, %r), strp_epoch(t, %r), strp_epoch(%s, %r)), 'Val')" % (TF, TF, _BZ, TF),
       modname='saml2_tophat.time_util')
